@@ -262,8 +262,11 @@ func c14BFS(x *mc.Cell, c cfg, depth int) {
 					flush()
 					got := add()
 					want := r.shut() || api.Count("close") > 0 // the monitor also forgets a channel it closed itself
-					if last && got != want {
-						x.Violate("C14", fmt.Sprintf("add-again;accepted=%v;want=%v", got, want), fmt.Sprintf("%s history=%v: adding the same channel again was accepted=%v; the monitor %s", c, rep.(map[string]any)["ops"], got, map[bool]string{true: "had seen the channel end and must have forgotten it", false: "is still monitoring it"}[want]), rep)
+					// with a back-off or debounce the reference does not know *when* the monitor gives up after too many
+					// attempts: until the close call is visible the answer is not determined
+					indeterminate := !r.exact && r.reason == "max-consecutive-restarts" && api.Count("close") == 0
+					if last && !indeterminate && got != want {
+						x.Violate("C14", fmt.Sprintf("add-again;accepted=%v;want=%v", got, want), fmt.Sprintf("%s history=%v: adding the same channel again was accepted=%v; the monitor %s; api log: %s", c, rep.(map[string]any)["ops"], got, map[bool]string{true: "had seen the channel end and must have forgotten it", false: "is still monitoring it"}[want], api.Log()), rep)
 					}
 					if got {
 						ended = true
